@@ -8,6 +8,8 @@ import XmppModel.Lemmas.IbbSend
 import XmppModel.Model.IbbClose
 import XmppModel.Model.IbbBody
 import XmppModel.Model.IbbTable
+import XmppModel.Model.IbbCarrier
+import XmppModel.Lemmas.IbbCarrier
 import XmppModel.Generated.C15
 /-!
 # C15 — an in-band bytestream is a reliable ordered byte pipe
@@ -927,6 +929,65 @@ peer's packets and close requests on the serve goroutine.  (Before the round-D f
 theorem C15_stream_table_accesses_locked : Generated.C15.streamTableLocked = some true := by decide
 
 end Table
+
+/-! ### the carrier message: the packet is the IBB data child wherever it stands (round E) -/
+section Carrier
+
+/-- the packet a message carries does not depend on where its `<data/>` child stands: any number of
+other children (hints, thread, body, white space, foreign elements) before and after it -/
+theorem C15_carrier_position_irrelevant (before after : List Nat) (p : BodyPacket) :
+    carried (carrierChildren before after p) = some p := by
+  unfold carried carrierChildren
+  rw [dataChildren_append, dataChildren_others]
+  simp [dataChildren, dataChildren_others]
+
+/-- hence the message is handled exactly like the bare packet: every theorem about `recvBody`
+(refusals leave the stream untouched, an acknowledged packet appends exactly its payload) holds for
+a packet at any position of its carrier message -/
+theorem C15_carrier_handled_like_bare_packet (cd : Codec) (s : RState) (before after : List Nat) (p : BodyPacket) :
+    recvMessage cd s (carrierChildren before after p) = .handled (recvBody cd s p).1 (recvBody cd s p).2 := by
+  unfold recvMessage carrierChildren
+  rw [dataChildren_append, dataChildren_others]
+  simp [dataChildren, dataChildren_others]
+
+/-- a valid, in-sequence packet is acknowledged and delivered whatever surrounds it -/
+theorem C15_carrier_accept_delivers (cd : Codec) (s : RState) (before after : List Nat) (p : BodyPacket)
+    (h : (recvBody cd s p).2 = .ack) :
+    ∃ s' d, recvMessage cd s (carrierChildren before after p) = .handled s' .ack ∧
+      cd.dec (bodyText p.body) = some d ∧ s'.buf = s.buf ++ d ∧ s'.seq = (s.seq + 1) % 65536 := by
+  obtain ⟨d, hd, hb, hs⟩ := C15_body_accept_delivers_every_piece cd s p h
+  exact ⟨_, d, by rw [C15_carrier_handled_like_bare_packet, h], hd, hb, hs⟩
+
+/-- children that are not the packet never reach the stream -/
+theorem C15_carrier_other_children_inert (cd : Codec) (s : RState) (cs : List Nat) :
+    recvMessage cd s (cs.map Child.other) = .notIbb := by
+  unfold recvMessage; rw [dataChildren_others]
+
+/-- `<no-copy/><thread/>` before the packet, `<body/>` after it: acknowledged, `ABC` delivered -/
+example : recvMessage std ⟨true, 0, [120], 0⟩ (carrierChildren [0, 1] [2] ⟨true, [48], [.text [81, 85, 74, 68]]⟩) =
+    .handled ⟨true, 1, [120, 65, 66, 67], 0⟩ .ack := by decide
+
+/-- negation witness (seeded C15-17): a handler that takes the FIRST child of the message for the
+packet refuses a valid in-sequence packet that follows a processing hint (item-not-found: the
+hint names no stream), so its bytes — and every later packet of the stream — are lost -/
+theorem C15_carrier_first_child_only_fails :
+    ∃ (s : RState) (cs : List Child) (p : BodyPacket), carried cs = some p ∧ (recvBody std s p).2 = .ack ∧
+      recvMessageFirstChild std s cs = .handled s .itemNotFound :=
+  ⟨⟨true, 0, [], 0⟩, carrierChildren [0] [] ⟨true, [48], [.text [81, 85, 74, 68]]⟩, ⟨true, [48], [.text [81, 85, 74, 68]]⟩,
+    by decide, by decide, by decide⟩
+
+/-- PROBE FACT: the real handler, run by `harness facts` on a fresh message-carrier stream for every
+shape of `carrierUniverse` (the packet alone; a hint before / after it; thread + hint before; a body
+with base64-looking text before; white space around; an element named `data` in another namespace
+before / after; an IBB data element nested in another child before / after; many children on both
+sides; out-of-sequence packets behind / before other children), answers and delivers exactly what
+the model does -/
+set_option synthInstance.maxSize 512 in
+theorem C15_carrier_probe :
+    Generated.C15.carrierProbe = some (carrierUniverse.map fun r => (r.1, r.2.1, r.2.2, (carrierModel r).1, (carrierModel r).2)) := by
+  decide
+
+end Carrier
 
 /-! ### the executable codec instance: spot checks -/
 example : std.dec (std.enc [1, 2, 3, 4, 5]) = some [1, 2, 3, 4, 5] := by decide
